@@ -400,13 +400,17 @@ class Pass:
         self.M = Material(seed)
         self.dis = []          # disagreements
         self.stats = collections.Counter()
+        self.per_variant = collections.defaultdict(collections.Counter)    # var -> measured accepted / rejected per entry point
 
     def item(self, cell):
         it = cell_item(self.M, cell_id(*cell), *cell)
         mode, klen, d, h, order = cell
-        if not self.inplace and mode not in (11, 4, C_NULL) and h not in (19, 21) and mode not in AUX_CIPHERS:
+        if not self.inplace and mode not in (11, 4, C_NULL) and h not in (19, 21) and mode not in AUX_CIPHERS and h not in AUX_HASHES:
             it["inplace"] = 0
-            it["hdst"] = 1 if order == 1 else 0
+            # generic chained cells, cipher first: the hash reads the cipher output from the destination area;
+            # the dedicated pairs take one offset for both stages
+            generic = mode not in PAIRS and h not in PAIRED_HASHES
+            it["hdst"] = 1 if (order == 1 and generic) else 0
         return it
 
     def note(self, cell, var, ep, kind, **detail):
@@ -532,6 +536,7 @@ class Pass:
                         self.note(c, var, ep, "crash", sig=o["crash"])
                         continue
                     exp = 3 if ((fl & 2) and (ep == 0 or (fl & 1))) else 4
+                    self.per_variant[var]["ep%d_%s" % (ep, {3: "accepted", 4: "rejected"}.get(o["status"], "status%d" % o["status"]))] += 1
                     if o["status"] != exp:
                         self.note(c, var, ep, "status", expected=exp, got=o["status"], errno=o["errno"])
                         continue
@@ -589,7 +594,9 @@ class Pass:
                     if o2 and "status" in o and "status" in o2 and (o["dst"], o["tag"]) != (o2["dst"], o2["tag"]):
                         self.note(c, key[0], key[1], "order-dependent-aead", order1=o["tag"][:32], order2=o2["tag"][:32])
         self.aliasing(R, items, acc, variants)
-        self.run_aux(auxcells, items, acc, R, variants)
+        if self.inplace:
+            # CUSTOM / SGL cells: compared with rows of this pass, which must be in place like them
+            self.run_aux(auxcells, items, acc, R, variants)
         self.stats["pass_s"] += time.time() - t0
         return self
 
@@ -658,6 +665,7 @@ class Pass:
                         self.note(c, var, ep, "crash", sig=o["crash"])
                         continue
                     exp = 3 if ((fl & 2) and (ep == 0 or (fl & 1))) else 4
+                    self.per_variant[var]["ep%d_%s" % (ep, {3: "accepted", 4: "rejected"}.get(o["status"], "status%d" % o["status"]))] += 1
                     if o["status"] != exp:
                         self.note(c, var, ep, "status", expected=exp, got=o["status"], errno=o["errno"])
                         continue
@@ -927,7 +935,7 @@ def main(tier, seed):
         "accepted_by_full_check": nacc_full, "accepted_by_light_check": nacc_light,
         "rejected_cells": len(domain) - sum(1 for c in domain if acc.get(c, 0) & 3),
         "variants": env.get("variants", []), "variant_table": env.get("variant_table", []), "entry_points": [0, 2],
-        "accepted_rejected_per_variant": {v: {"accepted": nacc_full, "rejected": len(domain) - nacc_full} for v in env.get("variants", [])},
+        "accepted_rejected_per_variant": {v: dict(passes[0].per_variant[v]) for v in env.get("variants", [])} if passes else {},
         "evaluations": stats["evaluations"], "distinct_nontrivial": nacc_full,
         "rule": "one evaluation = one (cell, variant, entry point, pass) result checked against validation, model, composition of the "
                 "library's own cipher-only and hash-only jobs, job-vs-burst; distinct non-trivial = cells the full check accepts "
